@@ -104,7 +104,7 @@ func main() {
 		workers   = flag.Int("workers", 0, "worker processes (default: number of CPUs)")
 		noEvid    = flag.Bool("no-evidence", false, "do not write the evidence file")
 		verbose   = flag.Bool("v", false, "verbose replay (print the event log)")
-		digestOut = flag.String("digest-out", "", "write the per-worker digests here (determinism self-test)")
+		digestOut = flag.String("digest-out", "", "workers write per-run event-log hashes to <path>.w<k> (determinism self-test)")
 	)
 
 	if v := os.Getenv("VERIF_DIR"); v != "" {
@@ -303,6 +303,10 @@ func main() {
 				env = append(env, "SIM_ENGINE="+*engine)
 			}
 
+			if *digestOut != "" {
+				env = append(env, fmt.Sprintf("SIM_HASHES=%s.w%d", *digestOut, w))
+			}
+
 			cmd := exec.Command(bin, "-test.run", "TestSim", "-test.timeout", "0")
 			cmd.Dir = scratch
 			cmd.Env = env
@@ -387,9 +391,7 @@ func main() {
 		digests = append(digests, fmt.Sprintf("%v %v", r.sum["runs"], r.sum["digest"]))
 	}
 
-	if *digestOut != "" {
-		os.WriteFile(*digestOut, []byte(strings.Join(digests, "\n")+"\n"), 0o644)
-	}
+	_ = digests
 
 	exploreS := time.Since(start).Seconds() - buildS
 
